@@ -900,8 +900,9 @@ def ieee_simplify(n, memo=None):
     return memo[n]
 
 
-def take_ite_true(n, conds=None, memo=None):
-    """rewrite every ite(c, x, y) to x, collecting the conditions c (to be asserted as assumptions)"""
+def take_ite_true(n, conds=None, memo=None, pairs=None):
+    """rewrite every ite(c, x, y) to x, collecting the conditions c (to be asserted as assumptions) and, in `pairs`, each
+    condition together with the value selected when it holds"""
     memo = {} if memo is None else memo
     conds = [] if conds is None else conds
     for x in topo([n]):
@@ -913,6 +914,8 @@ def take_ite_true(n, conds=None, memo=None):
             c = memo[x.args[0]]
             if c not in conds:
                 conds.append(c)
+                if pairs is not None:
+                    pairs.append((c, memo[x.args[1]]))
             memo[x] = memo[x.args[1]]
         else:
             memo[x] = Node(x.op, *[memo[a] if isinstance(a, Node) else a for a in x.args])
